@@ -159,10 +159,12 @@ def registry(I):
         add('io.FCSData.' + m, 'raw', (lambda m=m: (lambda a: getattr(a['s'], m), {'s': I.raw()})), query=True)
     for state in ('raw', 'rfi'):
         for scale in ('linear', 'log', 'logicle'):
-            for lab, ch, nb in (('one', 'FL1', 16), ('all', None, None), ('list', [0, 'FL1'], [8, 9])):
+            for lab, ch, nb in (('one', 'FL1', 16), ('all', None, None), ('list', [0, 'FL1'], [8, 9]), ('list-default', ['SSC', 'FL1'], [None, 16])):
                 add('io.FCSData.hist_bins', '%s/%s/%s' % (state, scale, lab),
                     (lambda state=state, scale=scale, ch=ch, nb=nb:
-                     (lambda a: a['s'].hist_bins(ch, nb, scale), {'s': conts[state]()})), query=True)
+                     (lambda a: a['s'].hist_bins(a['ch'], a['nb'], a['sc']),
+                      {'s': conts[state](), 'ch': list(ch) if isinstance(ch, list) else ch,
+                       'nb': list(nb) if isinstance(nb, list) else nb, 'sc': scale})), query=True)
     add('io.FCSData', 'load', lambda: (lambda a: FlowCal.io.FCSData(a['path']), {'path': I.path}))
     add('io.FCSFile', 'load', lambda: (lambda a: FlowCal.io.FCSFile(a['path']).data.shape, {'path': I.path}))
     for seg in ('header', 'text'):
